@@ -291,6 +291,35 @@ func RefExecute(env *Env, r *genesis.Rules, parent RefParent, blk RefBlock, now 
 				case "fail":
 					res.Success = false
 					break actions
+				case "tryget":
+					if !hasPerm(declared, k, state.Read) {
+						obs = append(obs, []byte("<denied>;")...)
+					} else if v, ok := get(k); ok {
+						obs = append(obs, v...)
+						obs = append(obs, ';')
+					} else {
+						obs = append(obs, []byte("<absent>;")...)
+					}
+				case "tryput":
+					ch, okc := keyChunks(k)
+					_, exists := get(k)
+					if !hasPerm(declared, k, state.Write) || !okc || valueChunks(op.Val) > ch || (!exists && !hasPerm(declared, k, state.Allocate)) {
+						obs = append(obs, []byte("<put-denied>;")...)
+					} else {
+						scratch[k] = op.Val
+						delete(deleted, k)
+						obs = append(obs, []byte("<put-ok>;")...)
+					}
+				case "trydel":
+					if !hasPerm(declared, k, state.Write) {
+						obs = append(obs, []byte("<del-denied>;")...)
+					} else {
+						if _, exists := get(k); exists {
+							deleted[k] = true
+							delete(scratch, k)
+						}
+						obs = append(obs, []byte("<del-ok>;")...)
+					}
 				}
 			}
 			res.Outputs = append(res.Outputs, obs)
